@@ -11,7 +11,7 @@ from .common import (BaseHooks, V, finite, fnum, is_qmat, key, logspace_sigma, n
 PROP = "C04"
 WORLDS_QUICK = ("pkg", "flat")
 WORLDS_THOROUGH = ("pkg", "flat", "pkg_then_flat", "flat_then_pkg")
-FAMILIES = ("generic", "herm", "unitary", "cI", "I_lowrank", "tri", "diagrep", "spread", "perm", "near_I", "pure")
+FAMILIES = ("generic", "herm", "unitary", "cI", "I_lowrank", "tri", "diagrep", "spread", "perm", "near_I", "pure", "intmat")
 B_KINDS = ("gauss", "gauss", "eigvec", "zero", "unit", "Ax_int", "col_of_A", "imag")
 SWEEP_FOCUS = ["solve", "_solve_lower_triangular_quat", "_solve_upper_triangular_quat",
                "quaternion_lu", "quat_matmat"]
@@ -46,6 +46,10 @@ def gen_system(R, nmax):
     elif fam == "tri":
         A = {"gen": "tri", "n": n, "seed": s, "upper": R.random() < 0.5,
              "off": R.choice([0.1, 0.3])}
+    elif fam == "intmat":
+        # integer-valued entries (a sparse operand may then store integer components)
+        A = {"gen": "add", "a": {"gen": "cI", "n": n, "c": float(R.choice([4, 6, -5]))},
+             "b": {"gen": "int", "m": n, "n": n, "seed": s, "lo": -1, "hi": 1}}
     elif fam == "pure":
         # entries confined to a subspace of H: purely imaginary (zero real parts, optionally a
         # tiny leading entry so that pivoting matters) or purely real
@@ -136,6 +140,8 @@ def _solve_steps(steps, sysd, scale, tol, prec, cap, storage, jitter, R, tagx=No
         A = dict(A, storage="sparse")
         if R.random() < 0.3:
             A["explicit_zeros"] = True
+        if sysd["family"] in ("intmat", "perm", "cI") and scale == 0 and R.random() < 0.7:
+            A["int_dtype"] = True
     b = _scaled(sysd["b"], scale)
     cfg = {"tol": tol, "max_iter": cap, "preconditioner": None if prec == "none" else prec}
     if R.random() < 0.12:
